@@ -388,6 +388,14 @@ pub fn plan(prop: &str, tier: Tier) -> Vec<RunSpec> {
     let mut out = vec![];
     match prop {
         "C01" | "C12" | "C13" => {
+            if !cfg!(feature = "std") {
+                // no_std flavour (C01 only is run on it): the bounds of 2Q come out of the crate's own floor polyfill
+                // there; its closures are repeated, everything else is feature-independent
+                for c in policy_menu(Kind::TwoQ, tier) {
+                    out.push(spec(c, obs_want()));
+                }
+                return out;
+            }
             for k in ALL_KINDS {
                 for c in policy_menu(k, tier) {
                     out.push(spec(c, obs_want()));
@@ -584,6 +592,18 @@ pub fn plan(prop: &str, tier: Tier) -> Vec<RunSpec> {
                     w.iters = true;
                     out.push(spec(c, w));
                 }
+            }
+        }
+        "C19" => {
+            // the run-time side of "no two live mutable references to the same value": the mutable iterators, driven
+            // from both ends and through the provided adaptors, never hand out an entry twice
+            for mut c in [raw(3, 1, 1), raw(5, 1, 1), twoq(3, 0.34, 0.34, 1), arc(2, 1)] {
+                c.with_clone = false;
+                c.lean_ops = true;
+                c.resize = vec![];
+                let mut w = obs_want();
+                w.iters = true;
+                out.push(spec(c, w));
             }
         }
         "C15" => {
